@@ -94,6 +94,29 @@ SNIPPETS = [
 ]
 
 
+def perturb_name(r, names):
+    """A near miss of a valid name: prefix/suffix/case/space variations."""
+    n = r.choice(names)
+    k = r.randrange(9)
+    if k == 0:
+        return n + r.choice(['_t', 's', '2', 'x', '[]', ' ', '\t', '.', '64'])
+    if k == 1:
+        return r.choice(['x', ' ', 'c', 'u', '_']) + n
+    if k == 2:
+        return n.upper()
+    if k == 3:
+        return n.capitalize()
+    if k == 4:
+        return n[:-1]
+    if k == 5:
+        return n[1:]
+    if k == 6:
+        return n + n
+    if k == 7:
+        return n.replace('int', 'Int').replace('real', 'reaI')
+    return ' ' + n + ' '
+
+
 def gen_fault(r, kinds=None):
     """A fault spec (plain data) of a random kind."""
     k = r.choice(kinds or ALL_KINDS + ['struct'] * 8 + ['corrupt_bytes'] * 3
@@ -140,8 +163,8 @@ def apply(fault, raw, timeout=None):
     if k == 'delay':
         return [('DELAY', r.choice([0.1, 1.0, 5.0])), raw]
     if k == 'status':
-        st = r.choice([100, 204, 301, 302, 400, 401, 401, 403, 404, 405, 407,
-                       408, 500, 501, 503, 599, 200])
+        st = r.choice([100, 204, 301, 302, 400, 401, 401, 401, 401, 403, 404,
+                       405, 407, 408, 500, 501, 503, 599, 200])
         hdrs = []
         if r.random() < 0.5:
             hdrs.append(('CIMError', r.choice(
@@ -153,7 +176,10 @@ def apply(fault, raw, timeout=None):
         if st == 401 and r.random() < 0.7:
             hdrs.append(('WWW-Authenticate', r.choice(
                 ['Basic realm="x"', 'Digest realm="x"', 'Basic', '',
-                 'Negotiate, Basic realm="y"', ',', 'Local "/tmp/x"'])))
+                 'Negotiate, Basic realm="y"', ',', 'Local "/tmp/x"',
+                 'Basic,', ',Basic', 'Basic, ,Digest', ' ', ', ,',
+                 'Negotiate,Basic', 'basic realm="x"', 'Basic  realm',
+                 '\tBasic', 'Digest , , Basic "h:1"', 'OpenPegasus "x"'])))
         if st in (301, 302):
             hdrs.append(('Location', r.choice(
                 ['http://FakedUrl:5988/other', '/cimom', '', 'x://',
@@ -309,7 +335,24 @@ def _struct(body, r):
         m = r.choice(['attr_set', 'attr_set', 'attr_set', 'attr_del',
                       'attr_add', 'text', 'text', 'rename', 'drop', 'dup',
                       'reorder', 'insert', 'insert', 'wrap', 'empty',
-                      'deep'])
+                      'deep', 'near_miss', 'near_miss', 'near_miss'])
+        if m == 'near_miss':
+            # a converted attribute gets a value that is almost valid
+            cands = [(n, a) for n in nodes for a in n.attrib
+                     if a in ('TYPE', 'PARAMTYPE', 'VALUETYPE',
+                              'EmbeddedObject', 'EMBEDDEDOBJECT',
+                              'PROPAGATED', 'ISARRAY', 'OVERRIDABLE',
+                              'TOSUBCLASS', 'ARRAYSIZE', 'CODE')]
+            if not cands:
+                continue
+            n, a = r.choice(cands)
+            cur = n.get(a)
+            n.set(a, r.choice([cur + r.choice(['_t', 's', '2', ' ', 'x',
+                                                '[]', '64', '\n']),
+                               r.choice(['x', ' ', '_']) + cur,
+                               cur.upper(), cur.capitalize(), cur[:-1],
+                               cur + cur]))
+            continue
         if m in ('attr_set', 'attr_del'):
             cands = [n for n in nodes if n.attrib]
             if not cands:
@@ -321,6 +364,17 @@ def _struct(body, r):
             a = r.choice(names)
             if m == 'attr_del':
                 del n.attrib[a]
+            elif a in ('TYPE', 'PARAMTYPE') and r.random() < 0.6:
+                n.set(a, perturb_name(r, CIM_TYPES))
+            elif a == 'VALUETYPE' and r.random() < 0.6:
+                n.set(a, perturb_name(r, ['string', 'boolean', 'numeric']))
+            elif a in ('EmbeddedObject', 'EMBEDDEDOBJECT') and \
+                    r.random() < 0.6:
+                n.set(a, perturb_name(r, ['instance', 'object']))
+            elif a in ('PROPAGATED', 'OVERRIDABLE', 'TOSUBCLASS',
+                       'TOINSTANCE', 'TRANSLATABLE', 'ISARRAY') and \
+                    r.random() < 0.6:
+                n.set(a, perturb_name(r, ['true', 'false']))
             else:
                 n.set(a, r.choice(ODD_ATTR + CIM_TYPES))
         elif m == 'attr_add':
